@@ -96,7 +96,7 @@ class C13Events(Machine):
         kind = rng.pick(["cylindrical", "cylindrical", "rectangular", "rectangular", "list"])
         cfg = {"n_steps": rng.pick([2, 4, 6, 8]), "kind": kind, "shadow": rng.chance(0.5),
                "model": rng.pick(["CTW", "GQRS"]),
-               "ratio": rng.pick([[1, 1, 1], [1, 2, 0], [0, 0, 1], [3, 1, 1]]),
+               "ratio": rng.pick([[1, 1, 1], [1, 2, 0], [0, 0, 1], [3, 1, 1], [0, 1, 1], [1, 0, 2], [0, 1, 0]]),
                "source": rng.pick(["cosmogenic", "astrophysical"]),
                "earth": rng.pick(["prem", "stub", "stub"]), "stub": [rng.pick([1e6, 1e7, 1e8]), rng.pick([0.0, 0.9])],
                "emin": rng.pick([3, 6, 9]), "emax": 12, "buggify": rng.chance(0.35),
@@ -345,6 +345,9 @@ class C13Events(Machine):
             raise Violation("C13:vertex", "particle vertex differs from the thrown vertex")
         if p.id.value not in NU_IDS:
             raise Violation("C13:particle-type", "particle id %r is not a neutrino type" % (p.id,))
+        if cfg["ratio"][{12: 0, 14: 1, 16: 2}[abs(p.id.value)]] == 0:
+            raise Violation("C13:flavour-with-zero-ratio", "a %s was thrown although the configured flavour "
+                            "ratio %r gives that flavour probability zero" % (p.id.name, cfg["ratio"]))
         if abs(np.linalg.norm(d) - 1) > 1e-12:
             raise Violation("C13:direction-norm", "|direction| = %r" % float(np.linalg.norm(d)))
         if not energies or p.energy != energies[-1]:
@@ -424,7 +427,7 @@ class C13Distributions(Machine):
         return {"n_steps": 1, "kind": rng.pick(["cylindrical", "rectangular"]),
                 "dr": rng.pick([100.0, 5000.0]), "dz": rng.pick([50.0, 2800.0]),
                 "dx": rng.pick([200.0, 3000.0]), "dy": rng.pick([200.0, 10000.0]),
-                "ratio": rng.pick([[1, 1, 1], [1, 2, 0], [3, 1, 1]]),
+                "ratio": rng.pick([[1, 1, 1], [1, 2, 0], [3, 1, 1], [0, 1, 1], [1, 0, 2], [0, 0, 1]]),
                 "source": rng.pick(["cosmogenic", "astrophysical"])}
 
     def setup(self, cfg):
